@@ -29,7 +29,7 @@ func genManifest(vdir string) error {
 	}
 	sort.Strings(ids)
 	var checks []map[string]interface{}
-	var na []map[string]string
+	na := []map[string]string{}
 	var served []string
 	for _, id := range ids {
 		p := props.Table[id]
